@@ -18,6 +18,18 @@ class Violation(Exception):
         self.detail = detail
 
 
+class Abort(BaseException):
+    """Raised by a harness component from inside library code to end a case
+    whose outcome is already decided (e.g. a message storm on the pub/sub
+    channel): a BaseException, so that no `except Exception` of the code
+    under test contains it; the runner turns it into Violation(kind)."""
+
+    def __init__(self, kind, detail=''):
+        super().__init__('%s: %s' % (kind, detail))
+        self.kind = kind
+        self.detail = detail
+
+
 class HarnessError(Exception):
     """The harness itself is broken (never a property violation)."""
 
